@@ -67,8 +67,9 @@ def none_sites(body):
 
 def r08_1(ctx, fns):
     n = 0
+    lagh = find_lag_handler(ctx.facts)
     for f in fns:
-        b = f.built
+        b = inl(ctx.facts, f, lagh) if f is not lagh else f.built
         for loc, ty in none_sites(b):
             if "VectorDiff" not in ty and "GenericVector" not in ty and "Vector<" not in ty:
                 continue
@@ -142,7 +143,7 @@ def r08_3(ctx, streams, lag):
                                  fmt(e, 3), b.locals[acc]["name"]))
     # (b) streams: no None literal while holding a received message
     for f in streams:
-        sb = f.built
+        sb = inl(F, f, lag)
         for loc, ty in none_sites(sb):
             facts = conds.bare(conds.dominating_facts(sb, loc[0]))
             oks = [x for x in facts if x[0] == "variant" and x[2] == frozenset(["Ok"])]
